@@ -80,6 +80,9 @@ fn build_valid(rng: &mut Rng) -> Vec<u8> {
 
 fn mutate(rng: &mut Rng, m: &mut Vec<u8>) {
     let n = m.len();
+    if n < 16 {
+        return; // already cut down to (less than) a header
+    }
     match rng.below(9) {
         0 => {
             // header counts
